@@ -11,11 +11,23 @@ CONTEXT_HAZARDS = {
     # bs4 attribute API with formatter=None: bs4 chooses the quote character itself, nothing else is substituted
     "soup-attr-raw": {"&", "<"},
     # markup assembled by hand and stored with tag.string / appended as a string, formatter=None
-    "markup-text-raw": {"&", "<"},
+    # (']]>' may not occur in XML character data: XML 1.0 section 2.4; escaping '>' neutralises it)
+    "markup-text-raw": {"&", "<", "]]>"},
     "markup-attr-dq-raw": {"&", "<", '"'},
     # WebVTT cue payload
     "webvtt-cue-text": {"&", "<", "-->"},
 }
+
+
+def missing_hazards(need, covered):
+    """hazards of `need` not neutralised: a multi-character hazard is neutralised when it, or any
+    one of its characters, is"""
+    out = []
+    for h in need:
+        if h in covered or (len(h) > 1 and any(ch in covered for ch in set(h))):
+            continue
+        out.append(h)
+    return sorted(out)
 
 
 def replace_step(name):
